@@ -8,7 +8,7 @@
 From Coq Require Import List NArith ZArith Bool Arith.
 Import ListNotations.
 Require Import Aurora.Base.Corr Aurora.Consts.
-Require Export Aurora.C21.Model Aurora.C22.Model.
+Require Export Aurora.C21.Model Aurora.C22.Model Aurora.C22.Conc.
 
 Definition MaxPO : N := Z.to_N Consts.boson_MaxPO.
 Definition MaxBins : nat := S (N.to_nat MaxPO).
@@ -16,7 +16,12 @@ Definition MaxBins : nat := S (N.to_nat MaxPO).
 Inductive case :=
 | CDepth (nn quick radius : nat) (bins : list (list bool)) (obs : nat)
 | CKad (base : addr) (nn quick : nat) (events : list event) (obs : list nat)
-| CThresh (b quick_before obs : Z).
+| CThresh (b quick_before obs : Z)
+(* two goroutines on a real Kad, interleaving forced through the reachability
+   predicate: sequential [setup], then thread programs run under [sched]; [obs] =
+   NeighborhoodDepth once both have returned *)
+| CConc (base : addr) (nn quick : nat) (setup : list event) (progs : list (list event))
+        (sched : list (nat * nat)) (obs : nat).
 
 Definition model_out (c : case) : list Z :=
   match c with
@@ -24,12 +29,18 @@ Definition model_out (c : case) : list Z :=
   | CKad base nn quick es _ =>
       map Z.of_nat (kad_trace (po_of MaxPO base MaxBins) nn quick (kad_init MaxBins (N.to_nat MaxPO)) es)
   | CThresh b qb _ => [snd (thresholds_new b (0, 0, qb)%Z)]
+  | CConc base nn quick setup progs sched _ =>
+      let pof := po_of MaxPO base MaxBins in
+      let k0 := kad_run pof nn quick (kad_init MaxBins (N.to_nat MaxPO)) setup in
+      let g := grun pof nn quick false (ginit k0 progs) sched in
+      [if all_done g (length progs) then 1%Z else 0%Z; Z.of_nat (depth (gk g))]
   end.
 Definition obs_out (c : case) : list Z :=
   match c with
   | CDepth _ _ _ _ o => [Z.of_nat o]
   | CKad _ _ _ _ o => map Z.of_nat o
   | CThresh _ _ o => [o]
+  | CConc _ _ _ _ _ _ o => [1%Z; Z.of_nat o]
   end.
 Definition check_case (c : case) : bool := list_eqb Z.eqb (model_out c) (obs_out c).
 Definition explain_case (c : case) := (model_out c, obs_out c).
